@@ -90,12 +90,31 @@ CredServes(certKey, t, ver) ==
        \* an rsa-pss certificate signs (RSA-PSS, TLS 1.2 only) but cannot decrypt a ClientKeyExchange
        THEN ver = 3 /\ CertKey(t) = "rsa" /\ Kex(t) # "rsa"
   ELSE CASE CertKey(t) = "none" -> TRUE [] CertKey(t) = "any" -> FALSE [] OTHER -> CertKey(t) = certKey
+\* a signature algorithm both sides enable for the server's key (TLS 1.2: signature_algorithms; TLS 1.3: RSA only as
+\* PSS with SHA-2, ECDSA with the hash bound to the curve; before TLS 1.2 nothing is negotiated)
+Sha2 == {"sha256", "sha384", "sha512"}
+CurveHash(c) == CASE c = "secp256r1" -> "sha256" [] c = "secp384r1" -> "sha384" [] c = "secp521r1" -> "sha512" [] OTHER -> "sha256"
+SigOk(cs, ss, certKey, certCurve, t, v) ==
+  \* (the property's premise is a shared signature scheme usable with the server's credentials - also where a
+  \* static-RSA suite would need none: tlslite-ng picks a signing suite first and does not fall back)
+  IF v < 3 \/ certKey = "anon" THEN TRUE
+  ELSE IF certKey = "ecdsa"
+       THEN IF v = 4 THEN CurveHash(certCurve) \in (cs.ecdsaHashes \cap ss.ecdsaHashes)
+            ELSE (cs.ecdsaHashes \cap ss.ecdsaHashes) # {}
+  ELSE IF certKey = "rsa"
+       THEN IF v = 4 THEN "pss" \in (cs.rsaSchemes \cap ss.rsaSchemes) /\ (cs.rsaHashes \cap ss.rsaHashes \cap Sha2) # {}
+            ELSE \/ "pkcs1" \in (cs.rsaSchemes \cap ss.rsaSchemes) /\ (cs.rsaHashes \cap ss.rsaHashes) # {}
+                 \/ "pss" \in (cs.rsaSchemes \cap ss.rsaSchemes) /\ (cs.rsaHashes \cap ss.rsaHashes \cap Sha2) # {}
+  ELSE IF certKey = "rsapss"
+       THEN "pss" \in (cs.rsaSchemes \cap ss.rsaSchemes) /\ (cs.rsaHashes \cap ss.rsaHashes \cap Sha2) # {}
+  ELSE TRUE
 MustConnect(cs, ss, certKey, certBits, certCurve, candidates) ==
   /\ cs.vers \cap ss.vers # {}
   /\ LET v == Max(cs.vers \cap ss.vers) IN
        /\ \E i \in 1..Len(candidates) :
             LET t == candidates[i] IN
               /\ SuiteAllowed(cs, t, v) /\ SuiteAllowed(ss, t, v) /\ CredServes(certKey, t, v)
+              /\ SigOk(cs, ss, certKey, certCurve, t, v)
               \* finite-field DHE depends on further parameters (dhParams size vs key-size limits): not predicted
               /\ (v = 4 \/ Kex(t) \in {"rsa", "ecdhe_rsa", "ecdhe_ecdsa"})
               /\ (certBits > 0 => (certBits >= cs.minKey /\ certBits <= cs.maxKey))
@@ -112,4 +131,11 @@ MustConnect(cs, ss, certKey, certBits, certCurve, candidates) ==
 MustConnectCA(cs, ss, certKey, certBits, certCurve, candidates, cltBits) ==
   /\ MustConnect(cs, ss, certKey, certBits, certCurve, candidates)
   /\ (cltBits > 0 => (cltBits >= ss.minKey /\ cltBits <= ss.maxKey))
+  \* ... and its (RSA) key needs a signature algorithm the server's CertificateRequest lists
+  /\ (cltBits > 0 /\ (cs.vers \cap ss.vers) # {} =>
+        LET v == Max(cs.vers \cap ss.vers) IN
+          IF v < 3 THEN TRUE
+          ELSE IF v = 4 THEN "pss" \in (cs.rsaSchemes \cap ss.rsaSchemes) /\ (cs.rsaHashes \cap ss.rsaHashes \cap Sha2) # {}
+          ELSE \/ "pkcs1" \in (cs.rsaSchemes \cap ss.rsaSchemes) /\ (cs.rsaHashes \cap ss.rsaHashes) # {}
+               \/ "pss" \in (cs.rsaSchemes \cap ss.rsaSchemes) /\ (cs.rsaHashes \cap ss.rsaHashes \cap Sha2) # {})
 =============================================================================
